@@ -500,3 +500,170 @@ where
         }
     }
 }
+
+// --- batched execution (one System per batch, not per case) ---------------------------------
+
+use std::sync::atomic::{AtomicUsize, Ordering};
+use std::sync::{Arc, Mutex};
+
+use proptest::strategy::{BoxedStrategy, Strategy, ValueTree};
+use proptest::test_runner::{Config, RngAlgorithm, RngSeed, TestRunner};
+
+use crate::runner::Stats;
+
+fn panic_failure(id: &str, p: String) -> Failure {
+    let _ = take_panic_info();
+    Failure::new("panic", format!("{id}/panic/{}", crate::decoding::panic_key(&p)), p)
+}
+
+/// Run all `values` inside one System.  Returns the per-case infos of the
+/// cases that passed before the first failure and, if any, the index and
+/// failure of the first failing case (panics included).
+pub fn run_batch<T, F, Fut>(id: &str, values: Vec<T>, check: F) -> (Vec<CaseInfo>, Option<(usize, Failure)>)
+where
+    T: 'static,
+    F: Fn(T) -> Fut + 'static,
+    Fut: Future<Output = Result<CaseInfo, Failure>> + 'static,
+{
+    let out: Arc<Mutex<Vec<CaseInfo>>> = Arc::new(Mutex::new(Vec::new()));
+    let cur = Arc::new(AtomicUsize::new(0));
+    let (out2, cur2) = (out.clone(), cur.clone());
+    let res = with_system(async move {
+        for (i, v) in values.into_iter().enumerate() {
+            cur2.store(i, Ordering::SeqCst);
+            match check(v).await {
+                Ok(info) => out2.lock().unwrap().push(info),
+                Err(f) => return Some((i, f)),
+            }
+        }
+        None
+    });
+    let infos = std::mem::take(&mut *out.lock().unwrap());
+    match res {
+        Ok(fail) => (infos, fail),
+        Err(p) => (infos, Some((cur.load(Ordering::SeqCst), panic_failure(id, p)))),
+    }
+}
+
+/// One case in its own System (used while shrinking and for replays).
+pub fn run_isolated<T, F, Fut>(id: &str, value: T, check: &F) -> Result<CaseInfo, Failure>
+where
+    T: 'static,
+    F: Fn(T) -> Fut + Clone + 'static,
+    Fut: Future<Output = Result<CaseInfo, Failure>> + 'static,
+{
+    let check = check.clone();
+    match with_system(async move { check(value).await }) {
+        Ok(r) => r,
+        Err(p) => Err(panic_failure(id, p)),
+    }
+}
+
+/// proptest-driven generation with batched execution; on the first failure
+/// the case is shrunk (each candidate in its own System) and recorded, and the
+/// shard stops, as proptest's own runner would.
+pub fn run_proptest_bed<T, F, Fut, J>(
+    id: &str,
+    seed: u64,
+    cases: u32,
+    strategy: &BoxedStrategy<T>,
+    stats: &mut Stats,
+    to_case: J,
+    check: F,
+) where
+    T: Clone + std::fmt::Debug + 'static,
+    F: Fn(T) -> Fut + Clone + 'static,
+    Fut: Future<Output = Result<CaseInfo, Failure>> + 'static,
+    J: Fn(&T) -> serde_json::Value,
+{
+    let config = Config {
+        cases,
+        failure_persistence: None,
+        rng_algorithm: RngAlgorithm::ChaCha,
+        rng_seed: RngSeed::Fixed(seed),
+        ..Config::default()
+    };
+    let mut runner = TestRunner::new(config);
+    let mut done = 0u32;
+    const BATCH: u32 = 400;
+    while done < cases {
+        let k = BATCH.min(cases - done);
+        let mut trees: Vec<Box<dyn ValueTree<Value = T>>> = Vec::new();
+        for _ in 0..k {
+            if let Ok(t) = strategy.new_tree(&mut runner) {
+                trees.push(Box::new(t));
+            }
+        }
+        let values: Vec<T> = trees.iter().map(|t| t.current()).collect();
+        let (infos, fail) = run_batch(id, values.clone(), check.clone());
+        for (i, info) in infos.iter().enumerate() {
+            let idx = stats.evaluations;
+            stats.record(info);
+            stats.sample_at(idx, || to_case(&values[i]));
+        }
+        if let Some((i, f)) = fail {
+            stats.evaluations += 1;
+            let mut tree = trees.swap_remove(i);
+            let mut best = (values[i].clone(), f);
+            let mut iters = 0;
+            if tree.simplify() {
+                loop {
+                    iters += 1;
+                    if iters > 400 {
+                        break;
+                    }
+                    let v = tree.current();
+                    match run_isolated(id, v.clone(), &check) {
+                        Ok(_) => {
+                            if !tree.complicate() {
+                                break;
+                            }
+                        }
+                        Err(f2) => {
+                            best = (v, f2);
+                            if !tree.simplify() {
+                                break;
+                            }
+                        }
+                    }
+                }
+            }
+            let case = to_case(&best.0);
+            stats.fail(best.1.with_case(case));
+            return;
+        }
+        done += k;
+    }
+}
+
+/// exhaustive / enumerated work lists: batches of cases per System; every
+/// failing case is recorded (no shrinking), execution continues after it.
+pub fn run_list_bed<T, F, Fut, J>(id: &str, work: Vec<T>, stats: &mut Stats, to_case: J, check: F)
+where
+    T: Clone + 'static,
+    F: Fn(T) -> Fut + Clone + 'static,
+    Fut: Future<Output = Result<CaseInfo, Failure>> + 'static,
+    J: Fn(&T) -> serde_json::Value,
+{
+    let mut start = 0usize;
+    while start < work.len() {
+        let end = (start + 400).min(work.len());
+        let batch: Vec<T> = work[start..end].to_vec();
+        let (infos, fail) = run_batch(id, batch, check.clone());
+        for (i, info) in infos.iter().enumerate() {
+            let idx = stats.evaluations;
+            stats.record(info);
+            if info.nontrivial.is_some() {
+                stats.sample_at(idx, || to_case(&work[start + i]));
+            }
+        }
+        match fail {
+            Some((i, f)) => {
+                stats.evaluations += 1;
+                stats.fail(f.with_case(to_case(&work[start + i])));
+                start += i + 1;
+            }
+            None => start = end,
+        }
+    }
+}
